@@ -37,7 +37,7 @@ def poly(pts):
     return p.glyph()
 
 
-def mkfont(r, npal, zero_advance=False):
+def mkfont(r, npal, zero_advance=False, hhea_differs=False):
     from fontTools.fontBuilder import FontBuilder
     from fontTools.pens.ttGlyphPen import TTGlyphPen
 
@@ -98,7 +98,12 @@ def mkfont(r, npal, zero_advance=False):
     fb.setupGlyf(glyphs)
     fb.setupHorizontalMetrics(hm)
     asc, desc = r.choice([(800, -200), (950, -250), (1000, 0)])
-    fb.setupHorizontalHeader(ascent=asc, descent=desc)
+    if hhea_differs:
+        # hhea line metrics that are not the typo metrics, USE_TYPO_METRICS (fsSelection bit 7) not set - common in
+        # fonts not made by nanoemoji
+        fb.setupHorizontalHeader(ascent=asc + 120, descent=desc - 60)
+    else:
+        fb.setupHorizontalHeader(ascent=asc, descent=desc)
     fb.setupOS2(sTypoAscender=asc, sTypoDescender=desc)
     fb.setupNameTable({"familyName": "T", "styleName": "R"})
     fb.setupPost()
